@@ -76,7 +76,7 @@ REGISTRY = {
     "C02": {
         "title": "acknowledged data survives any later crash",
         "teq": [
-            {"engine": "crash", "quick": {"n": 1, "points": 12}, "thorough": {"tier": "thorough"}, "oracle": True, "mismatch_is_failure": False, "timeout": 3400,
+            {"engine": "crash", "quick": {"n": 1, "points": 12, "bulkdel": 1}, "thorough": {"tier": "thorough", "bulkdel": 1}, "oracle": True, "mismatch_is_failure": False, "timeout": 3400,
              "nontrivial": lambda case, res: "plan=" in case and not case.endswith("none") and res.startswith("ok") and "keys=-" not in res,
              "distinct_key": lambda case, res: res,
              "what": "real workloads (1-8 shards' worth of workers, io_uring and forced-pwrite paths, periodic flusher, explicit flushes, clean close) traced through hook H1; (a) T-run: the Coq monitor must accept the real device history (journal discipline R1-R3); (b) crash images = every sampled trace prefix x subsets of the un-synced writes x sector-granular tearing, each reopened by the real code in a child process and by Model.Recovery.open_image (must agree, incl. file bytes after recovery); (c) oracle on the real reopen: it opens, every key is in its window [state at the last acknowledgement before the cut .. latest invoked], nothing never written surfaces, len = keys"},
